@@ -145,7 +145,11 @@ func c06R1(p *core.Program, r *core.Report) {
 			fromTypes := ok && strings.HasSuffix(canonBase(p, f, d.Rhs, 0), ".pkg.Types()")
 			keys := core.VarOf(info, loop.X)
 			keysOK := false
-			if keys != nil {
+			// I2 form: the loop ranges over slices.Sorted(maps.Keys(table)) (directly or through a local)
+			if m := sortedKeysOperand(info, f.Body, loop.X); m != nil && core.VarOf(info, m) == table {
+				keysOK = true
+			}
+			if keys != nil && !keysOK {
 				for _, s := range f.Body.List {
 					rs, ok := s.(*ast.RangeStmt)
 					if !ok || core.VarOf(info, rs.X) != table {
@@ -283,6 +287,16 @@ func c06R3(p *core.Program, r *core.Report) {
 							}
 						}
 					}
+				}
+			}
+		}
+	}
+	if !mok && outer != nil && len(outer.Body.List) == 1 {
+		// maps.Copy(merged, tags): the same keyed overwrite
+		if es, isES := outer.Body.List[0].(*ast.ExprStmt); isES {
+			if c := core.AsCall(minfo, es.X, "maps.Copy"); c != nil && len(c.Args) == 2 && core.VarOf(minfo, c.Args[1]) == core.VarOf(minfo, outer.Value) && outer.Value != nil {
+				if v := core.VarOf(minfo, outer.X); v != nil && isParamOf(m, v) {
+					mok = true
 				}
 			}
 		}
